@@ -168,6 +168,7 @@ func (s *Service) Process(ctx context.Context, msg interface{}, ctl *core.Contro
 
 	s.trf("Service.Process routed %s: mids=%s all=%s (err=%v)", JS(msg), JS(mids), JS(all), err)
 
+	vhook("process-locked", msg)
 	c.Lock()
 	defer c.Unlock()
 
@@ -249,6 +250,7 @@ func (s *Service) Process(ctx context.Context, msg interface{}, ctl *core.Contro
 		ms.SpecSource = c.Machines[ms.Mid].SpecSource
 	}
 
+	vhook("process-before-write", msg)
 	if err = s.store.WriteState(ctx, s.crewName, mss); err != nil {
 		log.Printf("Service.Process warning for '%s' failed WriteState: %s", s.crewName, err)
 	} else {
@@ -256,6 +258,7 @@ func (s *Service) Process(ctx context.Context, msg interface{}, ctl *core.Contro
 			c.Machines[mid].State = state
 		}
 	}
+	vhook("process-after-write", msg)
 
 	if Verbose {
 		Render(os.Stderr, "processed", processed)
@@ -307,11 +310,13 @@ func (s *Service) AddMachine(ctx context.Context, specName, id, nodeName string,
 	if !have {
 		c.Machines[id] = &m
 	}
+	vhook("add-mem", id)
 	c.Unlock()
 
 	if have {
 		return Exists
 	}
+	vhook("add-before-write", id)
 
 	ms := MachineState{
 		Mid:        m.Id,
@@ -333,7 +338,9 @@ func (s *Service) RemMachine(ctx context.Context, mid string) error {
 
 	s.crew.Lock()
 	delete(s.crew.Machines, mid)
+	vhook("rem-mem", mid)
 	s.crew.Unlock()
+	vhook("rem-before-write", mid)
 
 	return s.store.WriteState(ctx, s.crewName, []*MachineState{&ms})
 }
